@@ -64,7 +64,10 @@ Inductive c13case :=
 | CKeySet (o : oracle) (ks : list (N * bool * dict)) (private : option bool) (params : dict)
           (expect : res (list dict * list dict))
 | CSpec (kty : string) (K : dict) (canon : list N)
-| CSha (x : bytes) (expect : bytes).        (* the SHA-256 used in the Examples of props/C13.v *)
+| CSha (x : bytes) (expect : bytes)         (* the SHA-256 used in the Examples of props/C13.v *)
+(* a key built through a SUBCLASS that selects digest dg (generate_key / import_key / constructor /
+   registry with the subclass): its thumbprint is the model's for the class's fields and dg *)
+| CSubKey (o : oracle) (cls : N) (d : dict) (dg : str) (expect : res str).
 
 Definition keyset_run (o : oracle) (ks : list (N * bool * dict)) (private : option bool) (params : dict)
   : res (list dict * list dict) :=
@@ -100,6 +103,7 @@ Definition c13_check (c : c13case) : bool :=
   | CSpec kty K canon =>
       match spec_run kty K with Some s => beqb s canon | None => false end
   | CSha x e => beqb (sha256 x) e
+  | CSubKey o cls d dg e => res_eqb beqb (thumbprint (oracle_hash o) d (key_fields (cls_of cls)) dg) e
   end.
 
 (* what the model computed, for the failing cases only: a short prefix of its
@@ -132,4 +136,5 @@ Definition c13_show (c : c13case) : c13out :=
       end
   | CSpec kty K _ => match spec_run kty K with Some s => Ok (clip s) | None => Err EOracleMiss end
   | CSha x _ => Ok (clip (sha256 x))
+  | CSubKey o cls d dg _ => show_str (thumbprint (oracle_hash o) d (key_fields (cls_of cls)) dg)
   end.
